@@ -15,8 +15,18 @@ def result_dict(res, extra=None):
     }
 
 
+PATH_RESET_HOOKS = []        # called at the start of every path (state of the code under test back to its initial value)
+
+
 def explore_cfg(fn, cfg, **kw):
     """Runs the scenario; in witness mode the scenario's return triggers a final `False` assertion."""
+    if PATH_RESET_HOOKS:
+        body = fn
+
+        def fn():
+            for h in PATH_RESET_HOOKS:
+                h()
+            return body()
     if cfg.get("witness"):
         inner = fn
 
